@@ -178,6 +178,74 @@ def r1(ctx):
     ctx.floor("C03.R1", 12)
 
 
+
+def reference_time_sites(ctx, rule="C03.R2"):
+    """validate_entry adds the ten-minute allowance itself: what every caller hands it as `now` must be the clock reading, not a
+    value that already went through arithmetic (a bound computed by the caller would be extended a second time)"""
+    f = ctx.facts
+    n = 0
+
+    def clock_like(body, o, depth=3):
+        """the origin is a call of system_time_now, or of a crate-local function whose return value is one"""
+        if o.kind != "call":
+            return False
+        if callee_matches(o.data, r"sync::system_time_now$"):
+            return True
+        if depth <= 0:
+            return False
+        for p in mir.callee_paths(o.data):
+            hb = f.bodies.get(p)
+            if hb is None or hb.rec.get("argc"):
+                continue
+            rets = trace(hb, ["copy", {"l": 0, "p": []}], through_calls=False)
+            if rets and all(clock_like(hb, x, depth - 1) for x in rets):
+                return True
+        return False
+    def sources(body, op, depth=5):
+        """provenance of an operand followed out of closures (captured variables) and named helpers (parameters, through every
+        call site): [(body, origin)] with origins that are neither a capture nor a parameter that could be followed"""
+        out = []
+        for o in trace(body, op, through_calls=False):
+            if depth > 0 and o.kind == "upvar":
+                idx = [pr[1] for pr in o.projs if pr[0] == "field"]
+                up = mir.upvar_origins(f, body, idx[0]) if idx else None
+                if up:
+                    pb, _ = up
+                    site = mir.closure_site(f, body)
+                    out += sources(pb, site[3]["r"][2][idx[0]], depth - 1)
+                    continue
+            if depth > 0 and o.kind == "arg" and body.kind in ("fn", "assoc_fn") and not o.projs:
+                sites = [(cb, ct) for cb, _, ct in f.callers().get(body.path, []) if len(ct["a"]) >= o.data[0]]
+                if sites:
+                    for cb, ct in sites:
+                        out += sources(cb, ct["a"][o.data[0] - 1], depth - 1)
+                    continue
+            if depth > 0 and o.kind == "arg" and body.rec.get("closure_kind") == "coroutine":
+                # parameter of an async fn: captured by its coroutine; follow the callers of the async fn
+                parent = f.bodies.get(body.path.rsplit("::{closure", 1)[0])
+                nm = o.data[1]
+                if parent is not None and parent.rec.get("is_async"):
+                    pidx = [i for i in range(1, parent.rec["argc"] + 1) if parent.local_name(i) == nm]
+                    sites = [(cb, ct) for cb, _, ct in f.callers().get(parent.path, [])] if pidx else []
+                    if sites:
+                        for cb, ct in sites:
+                            out += sources(cb, ct["a"][pidx[0] - 1], depth - 1)
+                        continue
+            out.append((body, o))
+        return out
+    for p, b in sorted(f.bodies.items()):
+        for bi, t in b.calls():
+            if not callee_matches(t, r"sync::validate_entry$") or not t["a"]:
+                continue
+            n += 1
+            ctx.touch(b)
+            origs = sources(b, t["a"][0])
+            bad = [mir.origin_summary(o) for ob, o in origs if not clock_like(ob, o)]
+            ctx.check(bool(origs) and not bad, rule, p, "reference-time-is-the-clock-reading",
+                      "the `now` handed to validate_entry derives from %s%s" % (sorted({mir.origin_summary(o) for ob, o in origs}), (": not the plain clock reading (%s) - validate_entry adds MAX_TIMESTAMP_FUTURE_SHIFT itself" % bad) if bad else ""), t["sp"])
+    if n < 2:
+        raise mir.AnchorMissing("expected at least two call sites of validate_entry (local / remote insert and reconciliation), found %d" % n)
+
 def r2(ctx):
     f = ctx.facts
     b = f.body("sync::validate_entry")
@@ -261,7 +329,8 @@ def r2(ctx):
     ctx.touch(se)
     cs = [t for _, t in se.calls()]
     ctx.check(any(callee_matches(t, r"sync::Entry::validate_empty$") and t["d"]["l"] == 0 for t in cs), "C03.R2", se.path, "delegates", "SignedEntry::validate_empty returns Entry::validate_empty's verdict", se.sp)
-    ctx.floor("C03.R2", 6)
+    reference_time_sites(ctx)
+    ctx.floor("C03.R2", 8)
 
 
 def _pid(p):
